@@ -64,7 +64,7 @@ def judge(ctx):
                  % (per[lo], dict(lo), per[hi], dict(hi), len(vals), len(per)))
 
 
-CFG = G.cfg(max_levels=3, max_factors=3, max_derived=1, p_weight=0.15, max_constraints=2, small_uncrossed=True, round_skeleton=True,
+CFG = G.cfg(max_levels=3, max_factors=3, max_derived=1, p_weight=0.15, max_constraints=2, small_uncrossed=True, round_skeleton=True, round_share=3,
             constraints=("exclude", "min", "pin", "atmost", "atleast", "exactly_k", "exactly_row"), kind_weight={"exclude": 3, "min": 3, "pin": 1})
 P = D.DesignProperty(
     "C05", judge,
